@@ -448,6 +448,14 @@ def pack_into_passes(nng, arch, verbose_packing=False):
             ):
                 return False
 
+            # A pass is executed as one NPU operation with ONE activation function (generate_high_level_commands_for_sched_op
+            # keeps the last one it meets). A TANH / SIGMOID operator and a RELU-type operator therefore cannot share a pass,
+            # in either order: one of the two would silently disappear
+            if (curr_op.type in activation_ops and next_op.type in (Op.Tanh, Op.Sigmoid)) or (
+                curr_op.type in (Op.Tanh, Op.Sigmoid) and next_op.type in activation_ops
+            ):
+                return False
+
             # A TRANSPOSE is realised by swapping the height/width strides of the OFM feature map of its own output tensor
             # (create_feature_map looks at the producer of the OFM tensor and forces that tensor to linear format). A post
             # operation packed into the same pass would replace the OFM tensor and the transposition would be lost.
